@@ -132,6 +132,21 @@ def run(ctx: Context, col) -> None:
     col.floor("R14.3", 4)
 
 
+def _dist(t, ix):
+    """(a - b + 1)[i] == a[i] - b[i] + 1: distribute an element access over pointwise ring expressions of vectors."""
+    from ..terms import subst
+    for _round in range(4):
+        m = {}
+        for x in subterms(t):
+            if x[0] == "elem" and x[2] == (ix,) and x[1][0] == "poly":
+                atoms = {a for mono, _c in x[1][1] for a, _p in mono}
+                m[x] = subst(x[1], {a: ("elem", a, (ix,)) for a in atoms})
+        if not m:
+            return t
+        t = subst(t, m)
+    return t
+
+
 def _index(ctx, cls, I, col):
     owner, fn = ctx.ct.require(cls, "state_to_index")
     t = I.call_method("state_to_index", [STATE])
@@ -152,15 +167,12 @@ def _index(ctx, cls, I, col):
             ok, why = False, "state space is not a create_range_space product"
         else:
             ix = r[1]
-            mins_d, maxs1_d = body[2]
-            mins = [x for x in subterms(mins_d) if x[0] == "elem" and x[2] == (ix,)]
-            maxs = [x for x in subterms(maxs1_d) if x[0] == "elem" and x[2] == (ix,)]
-            if len(mins) != 1 or len(maxs) != 1:
-                ok, why = False, "cannot read the bounds of the state space"
-            else:
-                MINS, MAXS = mins[0][1], maxs[0][1]
-                arg0, dims = rav[0][2][0], rav[0][2][1]
-                ok = arg0 == T_sub(STATE, MINS) and dims == T_add(T_sub(MAXS, MINS), ONE)
-                why = ("index == ravel(state - mins, maxs - mins + 1) with the state space's own bounds" if ok else
-                       f"index uses offset/dims {show_norm(arg0)[:80]} / {show_norm(dims)[:80]} that are not the state space's (mins {show_norm(MINS)[:60]}, maxs {show_norm(MAXS)[:60]})")
+            lo_d, hi_d = _dist(body[2][0], ix), _dist(body[2][1], ix)
+            arg0, dims = rav[0][2][0], rav[0][2][1]
+            off_d = _dist(("elem", arg0, (ix,)), ix)
+            dim_d = _dist(("elem", dims, (ix,)), ix)
+            ok = off_d == T_sub(("elem", STATE, (ix,)), lo_d) and dim_d == T_sub(hi_d, lo_d)
+            why = ("index == ravel(state - mins, maxs - mins + 1) with the state space's own per-dimension bounds" if ok else
+                   f"index uses per-dimension offset / size {show_norm(off_d)[:80]} / {show_norm(dim_d)[:80]} but the state space's ranges are "
+                   f"arange({show_norm(lo_d)[:60]}, {show_norm(hi_d)[:60]})")
     col.add("R14.2", f"{cls.name}.state_to_index", owner.module.relpath, fn.lineno, ok, why, text="state index")
